@@ -39,6 +39,7 @@ class LockstepReader:
         self.counter = counter if counter is not None else [0]
         self.touch = touch if touch is not None else [0]  # every interaction, incl. property reads (fuel)
         self.guard = guard
+        self.modes = []  # chunked mode of the real reader at every read / next_chunk (C15)
 
     # -- bookkeeping
     def _touch(self):
@@ -83,6 +84,8 @@ class LockstepReader:
 
     def _call(self, name, *args):
         self._tick(name, args)
+        if len(self.modes) < 5000:
+            self.modes.append(bool(self._r.chunked_reading_mode))
         ro = _outcome(getattr(self._r, name), *args)
         mo = _outcome(getattr(self._m, name), *args)
         self._compare(name, args, ro, mo)
@@ -164,6 +167,7 @@ class LockstepReader:
         if ro[0] == "raise":
             raise ValueError("lock-step: both raised")
         child = LockstepReader(ro[1], mo[1], trace=self.trace, fuel=self.fuel, counter=self.counter, guard=self.guard, touch=self.touch)
+        child.modes = self.modes
         child.check_state("slice-child", args)
         return child
 
@@ -178,6 +182,7 @@ class TraceWriter:
         self.trace = []
         self.calls = 0
         self.fail_at = fail_at
+        self.modes = []  # (operation, sanitisation mode of the real writer at that operation) (C15)
 
     def _call(self, name, *args):
         self.calls += 1
@@ -187,6 +192,8 @@ class TraceWriter:
         if len(self.trace) < 400:
             self.trace.append((name,) + tuple(a if isinstance(a, (int, str, bool)) else repr(a)[:60] for a in args))
         before = len(self._w)
+        if len(self.modes) < 5000:
+            self.modes.append((name, bool(self._w.string_sanitization_mode)))
         ro = _outcome(getattr(self._w, name), *args)
         if self._m is not None:
             mo = _outcome(getattr(self._m, name), *args)
